@@ -5,10 +5,11 @@ C17 — font-metric arithmetic. Model of
 * `impl Parse for FixWord`              crates/tfm/src/pl/ast.rs (PLtoTF §62–66)  → `parseFix`
 * `FixWord::to_scaled`                  crates/tfm/src/lib.rs   (TeX §568, §571–572) → `toScaled`
 * `compress`                            crates/tfm/src/lib.rs   (PLtoTF §75–80)   → `compress`
-* `NextLargerProgram::new` / `get`      crates/tfm/src/lib.rs   (TFtoPL §84)      → `nlBuild`, `nlGet`
+* `NextLargerProgram::new` / `get`      crates/tfm/src/lib.rs   (TFtoPL §84)      → `nlEdges`, `cutNxt`, `nlGet`
 
 and the independent specifications `storeScaled` (TeX's Pascal), `CompressSpec`
-(cover by intervals), `NlSpec` (functional graph with the largest node of every cycle cut).
+(cover by intervals) and, for next-larger, the functional graph with the largest node of every
+cycle cut (`cutNxt`, `nlGet`; here the model *is* the specification, see notes/C17.md).
 
 A fix_word is an `Int` (the `i32` it holds, value·2^20); the 32-bit width is explicit: every
 Rust operation that can overflow in the checked build is a `chk` in the model and yields
